@@ -395,6 +395,9 @@ class Executor:
             if p is not None:
                 paths.append(p)
             if len(paths) > self.max_paths:
+                if getattr(self, 'truncate_paths', False):
+                    self.truncated = True          # the caller may still refute on the paths explored; it must not claim a proof
+                    break
                 raise Unsupported('more than %d paths' % self.max_paths)
             # schedule alternatives for new, unforced decisions
             for i in range(len(prefix), len(ctx.decisions)):
@@ -2467,6 +2470,20 @@ class Executor:
             return ex.truth(x)
 
         def _isinstance(x, t):
+            if isinstance(x, VObj) and '__class__' in x.attrs:
+                # an object built by the contract with a class tag: decide by the real class hierarchy of the analysed module
+                def names(c):
+                    out_ = {c.node.name}
+                    for b in c.node.bases:
+                        bn = getattr(b, 'id', getattr(b, 'attr', None))
+                        if bn and bn in c.mod.classes:
+                            out_ |= names(ClassRef(c.mod, c.mod.classes[bn]))
+                    return out_
+                ts = list(t) if isinstance(t, tuple) else (list(t.items) if isinstance(t, VList) else [t])
+                if all(isinstance(c, ClassRef) for c in ts):
+                    cls = x.attrs['__class__']
+                    mine = names(cls) if isinstance(cls, ClassRef) else {cls}
+                    return any(c.node.name in mine for c in ts)
             return named_bool('isinstance(%s, %s)' % (vrepr(x), vrepr(t)))
 
         def _hasattr(x, n):
